@@ -6,6 +6,7 @@ import (
 	"strconv"
 
 	"cosmossdk.io/collections"
+	sdk "github.com/cosmos/cosmos-sdk/types"
 	sdkerrors "github.com/cosmos/cosmos-sdk/types/errors"
 	"github.com/cosmos/cosmos-sdk/types/query"
 	"google.golang.org/grpc/codes"
@@ -28,8 +29,10 @@ func (q queryServer) ListBid(ctx context.Context, req *types.QueryAllBidRequest)
 			if req.AuctionId != 0 && bid.AuctionId != req.AuctionId {
 				return false, nil
 			}
-			if req.Bidder != "" && bid.Bidder != req.Bidder {
-				return false, nil
+			if req.Bidder != "" {
+				if addr, err := sdk.AccAddressFromBech32(req.Bidder); err != nil || !bid.GetBidder().Equals(addr) {
+					return false, nil
+				}
 			}
 			if req.IsMatched != "" && strconv.FormatBool(bid.IsMatched) != req.IsMatched {
 				return false, nil
